@@ -79,8 +79,8 @@ Builtin(name, args) ==
   ELSE Err
 
 \* ---- operators
-DimScale(d, n) == [b \in DOMAIN d |-> d[b] * n]
-DimAdd(d, e, n) == [b \in DOMAIN d |-> d[b] + n * e[b]]
+DimScale(d, n) == TLCEval([b \in DOMAIN d |-> d[b] * n])
+DimAdd(d, e, n) == TLCEval([b \in DOMAIN d |-> d[b] + n * e[b]])
 ApplyPow(b, e) ==
   IF ~Plain(e) THEN (IF e.free THEN Ood ELSE Err)
   ELSE IF ~Known(e.q) THEN Ood
@@ -141,8 +141,8 @@ Cast(a, u) ==      \* a to u
        ELSE Val(a.si, a.dims, u, IF a.u = u THEN a.q ELSE Unknown)
 
 \* ---- the tree
-TokKinds(toks) == [i \in 1..Len(toks) |-> toks[i].k]
-TokTexts(s, toks) == [i \in 1..Len(toks) |-> Text(s, toks[i])]
+TokKinds(toks) == TLCEval([i \in 1..Len(toks) |-> toks[i].k])
+TokTexts(s, toks) == TLCEval([i \in 1..Len(toks) |-> Text(s, toks[i])])
 UnitOf(s, toks, from, to) == UnitExpr(TokKinds(toks), TokTexts(s, toks), from, to)
 FnName(cs) == IF cs = <<"f","l","o","o","r">> THEN "floor" ELSE IF cs = <<"c","e","i","l">> THEN "ceil"
               ELSE IF cs = <<"r","o","u","n","d">> THEN "round" ELSE IF cs = <<"s","i","n">> THEN "sin"
@@ -185,5 +185,5 @@ Results(s) ==
   LET toks == Lex(s)
       g == Grammar(toks) IN
   IF ~g.ok THEN [wf |-> FALSE, outs |-> <<>>]
-  ELSE [wf |-> TRUE, outs |-> [i \in 1..Len(g.asts) |-> EvalAst(s, toks, g.asts[i])]]
+  ELSE [wf |-> TRUE, outs |-> TLCEval([i \in 1..Len(g.asts) |-> EvalAst(s, toks, g.asts[i])])]
 =============================================================================
